@@ -295,7 +295,12 @@ def length(style, name, value, font_size=None, pixels_only=False):
         elif unit == 'em':
             result = value.value * font_size
         elif unit == 'rem':
-            result = value.value * style.root_style['font_size']
+            if style.is_root_element and name != 'font_size':
+                # On the root element, rem refers to its own font size, except
+                # on the font-size property where it refers to the initial one.
+                result = value.value * style['font_size']
+            else:
+                result = value.value * style.root_style['font_size']
     else:
         # A percentage or 'auto': no conversion needed.
         return value
